@@ -1,20 +1,83 @@
 /-
-  C13 (the part a value-level model can carry)
-  "… the text produced by converting any value to a string depend[s] only on the source and the
-   environment's contents: … changing hash-map iteration order never changes them."
+  C13. "The result of evaluating an expression, and the text produced by converting any value to
+  a string, depend only on the source and the environment's contents: repeating the evaluation,
+  recompiling, interleaving it with other compilations and invocations, or changing hash-map
+  iteration order never changes them.  Evaluation writes nothing to standard output except through
+  print, does not modify the host values, and leaves type and value environments usable for
+  further compilations and invocations."
 
-  In the model a map value is an association list in insertion order; Go's map iteration order
-  corresponds to an arbitrary permutation of that list.  The theorems say that `Val.render`
-  (`(*Val).String()`, also what `print` writes and what set membership uses), `Val.stringify`
-  (the `string()` built-in), `==` and key lookup do not depend on that order — at the top level
-  and at any depth inside a value.
-
+  PART 1 (values): hash-map iteration order.  In the model a map value is an association list in
+  insertion order; Go's map iteration order corresponds to an arbitrary permutation of that list.
+  `Val.render` (`(*Val).String()`, also what `print` writes and what set membership uses),
+  `Val.stringify` (the `string()` built-in), `==` and key lookup do not depend on that order — at
+  the top level and at any depth inside a value.
   NOT invariant (and not claimed): `Val.stringify` of an *object* follows the declaration order
-  of the fields of the value's own type (see `stringify_obj_declaration_order`); this is an
-  order fixed by the source, not by hash-map iteration.
+  of the fields of the value's own type (`stringify_obj_declaration_order`); this is an order
+  fixed by the source, not by hash-map iteration.
+
+  PART 2 (histories): the engine `Expr` of `facade.go` as a state machine, `Yae/Model/Engine.lean`
+  (`Engine`, `Callable`, `Op`, `Engine.run`).  Proofs: `Yae/Proofs/EngineHistory.lean`.
+  * `init_idempotent`, `init_effect`, `compile_state`, `invoke_state`: a compilation changes
+    nothing in the engine but `inited` and the one-time appending of the built-ins; an invocation
+    changes nothing.
+  * `history_independent`: on an initialised engine, in ANY history of compilations and
+    invocations the engine stays the same and every output is the output of that call on the
+    engine alone (`Engine.single`); `history_independent_fresh`: the same from an engine that has
+    not compiled yet, for invocations of the history's own Callables.
+    The theorem is about histories WITHOUT registrations, because:
+  * `registration_order_matters` (also `_mono`): the same four calls — one registration, two
+    compilations of the same source, one invocation — give different results when the
+    registration is moved across the FIRST compilation: `makeSureInit` appends the built-ins at
+    the first compilation, after what was registered before it, so a polymorphic overload is tried
+    before the built-in overloads in one history and after them in the other (and a monomorphic
+    one is replaced by the built-in in one history and replaces it in the other).  Checked against
+    the Go code: `facade.go` `makeSureInit`/`initFuns`, `types/env.go` `RegisterFun` (append /
+    overwrite), `types/typecheck.go` `resolveOverloadedFun` (first overload that unifies).
+    So a result depends on "the source and the environment's contents" AND on the registrations
+    made so far and their order relative to the first compilation.
+  * Registrations AFTER a compilation and the Callables compiled before it:
+    `early_binding_ignores_engine` (`vm.Compile`, `closure.Compile`: the function is looked up
+    while compiling; the Callable never looks at the engine's table again),
+    `append_keeps_resolution`, `callable_stable_under_append` (any compiler: appending functions
+    leaves every earlier Callable's outcome unchanged unless a MONOMORPHIC key one of its calls
+    was resolved to is registered again), `late_binding_depends_on_compiler` (that exception is
+    real and tells `interp.Interp` from the other compilers: the witness `!true`).
+
+  PART 3 (output, determinism).  Proofs: `Yae/Proofs/EnginePrint.lean`, `EngineEval.lean`,
+  `EngineCheck.lean`.
+  * `output_only_from_print` / `invoke_output_only_from_print`: a tree all of whose calls are
+    statically dispatched to functions other than the built-in `print` (`noPrint`) adds no
+    `.print` event, whatever the environment, fuel, debug mode, and whether or not it fails.
+    `print_prints`: `print(true)` writes the rendering once.
+    `output_only_from_print_dynamic` / `invoke_output_only_from_print_dynamic`: the same for ANY
+    tree, dynamically dispatched calls `e(args)` included (which function such a call runs is
+    decided by a run-time VALUE): provided no value bound in the run-time environment holds, at
+    any depth, a function referring to the built-in `print` (`quietVal`; the converters of
+    `conv` produce no function values at all) and no static call is resolved to `print`
+    (`noPrintD`).  The hypothesis on the environment cannot be dropped
+    (`print_value_is_not_quiet`: an environment may bind `print` itself).
+    (The host functions of the model, `HostBeh`, cannot print; a real host function can do
+    anything — that is outside the model.)
+  * `invoke_depends_on_bound_names`, `extra_bindings_irrelevant`, `evalSrc_deterministic`: the
+    outcome (value or error, and all events) of invoking a compiled expression is a function of
+    the bindings of the compile-time names only; extra run-time bindings change nothing.
+
+  NOT theorems here, and why: "does not modify the host values, leaves the environments usable":
+  the model is purely functional — environments and values are immutable data, `Engine.invoke`
+  returns no environment, `Inherit` is a view (`types/env.go`, `val/env.go`: a new struct sharing
+  the maps, never written by `Check`/the back ends) — so there is nothing to state beyond
+  `history_independent`, in which the same `tenv`/`venv` may be used by any number of calls.
+  That the Go back ends write to neither map is a property of the Go code that this model does not
+  see (aliasing); it is outside what is proved here.
+  Not modelled: user translators, the debug writer, `fnTbl` of the environments themselves.
 -/
 import Yae.Proofs.ValRelPerm
 import Yae.Props.C18
+import Yae.Proofs.EngineHistory
+import Yae.Proofs.EngineCheck
+import Yae.Proofs.EnginePrint
+import Yae.Proofs.EngineQuiet
+import Yae.Proofs.EngineWitness
 namespace Yae.C13
 open Yae
 
@@ -105,6 +168,387 @@ example : sortBy (fun a b : String × Nat => decide (a.1 < b.1)) [("b", 1), ("a"
     sortBy (fun a b : String × Nat => decide (a.1 < b.1)) [("a", 2), ("b", 1)] :=
   sort_canonical Prod.fst (List.Perm.swap _ _ _) (by simp)
 
+/-! # PART 2: histories of API calls -/
+
+open Yae.Facade Yae.EngineHistory Yae.EngineEval Yae.EngineCheck
+
+/-! ## what a call does to the engine -/
+
+/-- `makeSureInit` twice is `makeSureInit` once. -/
+theorem init_idempotent (e : Engine) : e.init.init = e.init := EngineHistory.init_idempotent e
+
+/-- What `makeSureInit` changes: `inited`, and — the first time, when built-ins are wanted — the
+built-in operators and functions are APPENDED to what was registered before.  Nothing else. -/
+theorem init_effect (e : Engine) :
+    e.init.inited = true ∧ e.init.useBuiltIn = e.useBuiltIn ∧ e.init.backend = e.backend ∧
+    e.init.ops = e.ops ++ (if !e.inited && e.useBuiltIn then builtinOps else []) ∧
+    e.init.funs = e.funs ++ (if !e.inited && e.useBuiltIn then builtinDecls else []) :=
+  ⟨init_inited e, init_useBuiltIn e, init_backend e, init_ops e, init_funs e⟩
+
+example : Engine.new.init.funs = builtinDecls ∧ Engine.new.init.ops = builtinOps ∧
+    Engine.new.init.init = Engine.new.init := ⟨rfl, rfl, rfl⟩
+
+/-- A compilation (successful or not) leaves the engine initialised and otherwise as it was; an
+initialised engine is not changed at all. -/
+theorem compile_state (e : Engine) (times : List (String × Int)) (tenv : List (String × Ty))
+    (src : String) :
+    (e.compile times tenv src).1 = e.init ∧
+    (e.inited = true → (e.compile times tenv src).1 = e) :=
+  ⟨rfl, fun h => compile_of_inited h times tenv src⟩
+
+/-- Compiling on the initialised engine is compiling on the engine. -/
+theorem compile_after_init (e : Engine) (times : List (String × Int)) (tenv : List (String × Ty))
+    (src : String) : e.init.compile times tenv src = e.compile times tenv src :=
+  compile_init e times tenv src
+
+/-- An invocation does not change the engine. -/
+theorem invoke_state (e : Engine) (outs : List Out) (k : Nat) (c : Callable)
+    (venv : List (String × Val)) (ext : Externs) :
+    (e.step outs (.invoke k venv ext)).1 = e ∧ (e.step outs (.invokeC c venv ext)).1 = e := by
+  refine ⟨?_, rfl⟩
+  simp only [Engine.step]
+  split <;> rfl
+
+/-- What a Callable holds: the compile-time environment, the engine's function table and
+compiler at the time, and the tree the pipeline `compileSrc` produced with that table. -/
+theorem callable_records {e : Engine} {times : List (String × Int)} {tenv : List (String × Ty)}
+    {src : String} {c : Callable} (h : (e.compile times tenv src).2 = .ok c) :
+    c.tenv = tenv ∧ c.funs = e.init.funs ∧ c.backend = e.backend ∧
+      compileSrc e.init.ops times (e.init.tenvOf tenv) src = .ok (c.ty, c.tree) :=
+  compile_callable h
+
+/-- The engine and the one-shot pipeline agree: compiling on `e` and invoking the Callable (on
+the engine as the compilation left it, with a compiler that records no debug entries) is
+`Facade.evalSrc` with the engine's operator and function tables — the function the other
+properties (C12 `run_total`, …) are stated for. -/
+theorem compile_invoke_eq_evalSrc {e : Engine} {times : List (String × Int)}
+    {tenv : List (String × Ty)} {src : String} {c : Callable}
+    (hc : (e.compile times tenv src).2 = .ok c) (hdbg : e.backend.dbg = false)
+    (venv : List (String × Val)) (ext : Externs) :
+    e.init.invoke c venv ext =
+      evalSrc e.init.ops times (e.init.tenvOf tenv) ⟨venv, e.init.funs, ext⟩ src := by
+  obtain ⟨ht, hf, hb, hsrc⟩ := compile_callable hc
+  have htab : e.init.tableFor c = e.init.funs := by
+    unfold Engine.tableFor
+    split
+    · rfl
+    · exact hf
+  unfold Engine.invoke evalSrc
+  rw [hsrc, htab, hb, hdbg, ht]
+  rfl
+
+/-- … and a failed compilation is the failed `evalSrc`. -/
+theorem compile_error_eq_evalSrc {e : Engine} {times : List (String × Int)}
+    {tenv : List (String × Ty)} {src : String} {err : CompileErr}
+    (hc : (e.compile times tenv src).2 = .error err) (ρ : REnv) :
+    evalSrc e.init.ops times (e.init.tenvOf tenv) ρ src = (.error (.compile err), []) := by
+  unfold Engine.compile at hc
+  simp only at hc
+  unfold evalSrc
+  split at hc
+  · next err' h => cases hc; rw [h]
+  · cases hc
+
+/-! ## repeating, recompiling, interleaving -/
+
+/-- **History independence.**  On an initialised engine, whatever the history of compilations
+and invocations (any sources, environments, Callables — also Callables of other engines —, in any
+order, any number of times): the engine is never changed, and the output of the `i`-th call is
+the output of that call performed on the engine alone (`Engine.single`: a compilation is that
+compilation; "invoke the Callable of step `k`" is compiling the source of step `k` afresh and
+invoking the result). -/
+theorem history_independent {e : Engine} (he : e.inited = true) (ops : List Op)
+    (h : ∀ op ∈ ops, op.isUse = true) :
+    e.run ops = (e, (List.range ops.length).map (e.single ops)) :=
+  run_use he ops h
+
+/-- The same from an engine that has not compiled anything yet, for compilations and
+invocations of the history's own Callables: the outputs are those on the initialised engine. -/
+theorem history_independent_fresh (e : Engine) (ops : List Op)
+    (h : ∀ op ∈ ops, isOwnUse op = true) :
+    (e.run ops).2 = (List.range ops.length).map (e.init.single ops) :=
+  run_use_fresh e ops h
+
+/-- In particular: a source compiled twice, at any two places of such a history, and invoked on
+the same environment gives the same outcome (value or error, and events). -/
+theorem recompiled_same (e : Engine) (ops : List Op) (h : ∀ op ∈ ops, isOwnUse op = true)
+    {i j k l : Nat} {times : List (String × Int)} {tenv : List (String × Ty)} {src : String}
+    {venv : List (String × Val)} {ext : Externs}
+    (hk : ops[k]? = some (.compile times tenv src)) (hl : ops[l]? = some (.compile times tenv src))
+    (hi : ops[i]? = some (.invoke k venv ext)) (hj : ops[j]? = some (.invoke l venv ext))
+    (hki : k < i) (hlj : l < j) :
+    (e.run ops).2[i]? = (e.run ops).2[j]? := by
+  have hil : i < ops.length := by
+    rcases Nat.lt_or_ge i ops.length with h | h
+    · exact h
+    · rw [List.getElem?_eq_none h] at hi; cases hi
+  have hjl : j < ops.length := by
+    rcases Nat.lt_or_ge j ops.length with h | h
+    · exact h
+    · rw [List.getElem?_eq_none h] at hj; cases hj
+  rw [history_independent_fresh e ops h]
+  simp only [List.getElem?_map, List.getElem?_range hil, List.getElem?_range hjl, Option.map_some]
+  simp only [Engine.single, hi, hj, hki, hlj, if_true, hk, hl]
+
+/-- non-vacuity, concretely: on a new engine compile `!true`, invoke, invoke again — the engine
+is the initialised new engine, both invocations return `false` -/
+example : (Engine.new.run [.compile [] [] "!true", .invoke 0 [] {}, .invoke 0 [] {}]).1 =
+      Engine.new.init ∧
+    (Engine.new.run [.compile [] [] "!true", .invoke 0 [] {}, .invoke 0 [] {}]).2.map
+      EngineWitness.outBool = [none, some false, some false] :=
+  EngineWitness.three_steps
+
+example : ∀ op ∈ EngineWitness.histThree, isOwnUse op = true := by decide
+
+/-! ## … but not registrations -/
+
+/-- **The order of registrations relative to the first compilation matters.**  Two histories on
+a new engine made of the same four calls — register a polymorphic host overload
+`string(a) : str` (returning `"host"`), compile `string(true)` twice, invoke the second
+Callable —: with the registration BEFORE the first compilation the overload precedes the
+built-in `string` in the table and is chosen (`"host"`); with the registration AFTER it the
+built-ins, appended by the first compilation, precede it and the built-in is chosen (`"true"`). -/
+theorem registration_order_matters :
+    EngineWitness.histBefore.Perm EngineWitness.histAfter ∧
+    (Engine.new.run EngineWitness.histBefore).2.map EngineWitness.outStr =
+      [none, none, none, some "host"] ∧
+    (Engine.new.run EngineWitness.histAfter).2.map EngineWitness.outStr =
+      [none, none, none, some "true"] :=
+  ⟨EngineWitness.same_calls, EngineWitness.before_host, EngineWitness.after_builtin⟩
+
+/-- The same for a MONOMORPHIC function under the key of a built-in (`!(bool) : bool`, returning
+`true`): registered before the first compilation it is replaced by the built-in (`!true` is
+`false`), registered after it, it replaces the built-in (`!true` is `true`). -/
+theorem registration_order_matters_mono :
+    EngineWitness.histMonoBefore.Perm EngineWitness.histMonoAfter ∧
+    (Engine.new.run EngineWitness.histMonoBefore).2.map EngineWitness.outBool =
+      [none, none, none, some false] ∧
+    (Engine.new.run EngineWitness.histMonoAfter).2.map EngineWitness.outBool =
+      [none, none, none, some true] :=
+  ⟨List.Perm.swap _ _ _, EngineWitness.mono_before, EngineWitness.mono_after⟩
+
+/-! ## registrations after a compilation -/
+
+/-- What `RegisterFun` does to the table. -/
+theorem registerFun_funs (e : Engine) (d : FunDecl) :
+    (e.registerFun d).funs = e.funs ++ (match d.ty with | .fn _ _ _ => [d] | _ => []) ∧
+    (e.registerFun d).ops = e.ops ∧ (e.registerFun d).inited = e.inited ∧
+    (e.registerFun d).backend = e.backend := by
+  cases h : d.ty <;> simp [Engine.registerFun, h]
+
+/-- A Callable compiled by `vm.Compile` / `closure.Compile` / `closure.DebugCompile` never looks
+at an engine's table: its outcome is the same on EVERY engine (in particular after any
+registrations). -/
+theorem early_binding_ignores_engine (e₁ e₂ : Engine) {c : Callable}
+    (h : c.backend.late = false) (venv : List (String × Val)) (ext : Externs) :
+    e₁.invoke c venv ext = e₂.invoke c venv ext := by
+  unfold Engine.invoke Engine.tableFor
+  rw [h]; rfl
+
+/-- Appending to the table: a monomorphic key is REPLACED, a polymorphic key is EXTENDED AT THE
+END; hence a resolved call keeps referring to the same function, unless it is a monomorphic call
+(`index < 0`) and a function with the same monomorphic key is appended. -/
+theorem append_keeps_resolution (fs ex : List FunDecl) (key : String) :
+    lookupMono (fs ++ ex) key = (lookupMono ex key).or (lookupMono fs key) ∧
+    lookupPoly (fs ++ ex) key = lookupPoly fs key ++ lookupPoly ex key ∧
+    (∀ (i : Int) (d : FunDecl), resolveStatic fs key i = some d →
+      (i < 0 → lookupMono ex key = none) → resolveStatic (fs ++ ex) key i = some d) ∧
+    (∀ (i : Int) (d' : FunDecl), i < 0 → lookupMono ex key = some d' →
+      resolveStatic (fs ++ ex) key i = some d') :=
+  ⟨lookupMono_append fs ex key, lookupPoly_append fs ex key,
+    fun _ _ h hm => resolveStatic_append ex h hm,
+    fun _ _ hi hm => resolveStatic_append_mono ex hi hm⟩
+
+/-- **Registrations after a compilation do not disturb the Callable** — whatever the compiler:
+if the engine's table has since grown by `ex` (`e'.funs = c.funs ++ ex`) and `ex` registers no
+monomorphic key that a call of the tree was resolved to (`NoMonoClash`; e.g. `ex` is all
+polymorphic), invoking on the grown engine gives the outcome of invoking on the engine as it was
+when the Callable was compiled. -/
+theorem callable_stable_under_append {e e' : Engine} {times : List (String × Int)}
+    {tenv : List (String × Ty)} {src : String} {c : Callable}
+    (hc : (e.compile times tenv src).2 = .ok c) {ex : List FunDecl}
+    (hfuns : e'.funs = c.funs ++ ex) (hno : NoMonoClash ex c.tree)
+    (venv : List (String × Val)) (ext : Externs) :
+    e'.invoke c venv ext = e.init.invoke c venv ext := by
+  have hcl := callable_closed hc
+  have hcf : c.funs = e.init.funs := (compile_callable hc).2.1
+  refine invoke_congr hcl (fun _ _ _ => rfl) ?_
+  unfold Engine.tableFor
+  cases c.backend.late with
+  | false => exact All.mono (fun _ _ => trivial) (fun _ _ _ => rfl) (fun h => h) _ hcl
+  | true =>
+    simp only [if_true]
+    rw [hfuns, ← hcf]
+    exact append_resolves_alike hcl hno
+
+/-- in particular: registering polymorphic functions -/
+theorem callable_stable_under_poly_registrations {e e' : Engine} {times : List (String × Int)}
+    {tenv : List (String × Ty)} {src : String} {c : Callable}
+    (hc : (e.compile times tenv src).2 = .ok c) {ex : List FunDecl}
+    (hfuns : e'.funs = c.funs ++ ex) (hpoly : ∀ d ∈ ex, d.key.2 = false)
+    (venv : List (String × Val)) (ext : Externs) :
+    e'.invoke c venv ext = e.init.invoke c venv ext :=
+  callable_stable_under_append hc hfuns (noMonoClash_of_poly hpoly (callable_closed hc)) venv ext
+
+/-- **… and the exception is real, and depends on the compiler.**  Choose the compiler, compile
+`!true`, register a host `!(bool) : bool` returning `true`, invoke the Callable compiled before:
+with `vm.Compile` it still runs the built-in (`false`), with `interp.Interp` it runs the newly
+registered function (`true`). -/
+theorem late_binding_depends_on_compiler :
+    (Engine.new.run (EngineWitness.histLate .vm)).2.map EngineWitness.outBool =
+      [none, none, none, some false] ∧
+    (Engine.new.run (EngineWitness.histLate .interp)).2.map EngineWitness.outBool =
+      [none, none, none, some true] :=
+  ⟨EngineWitness.late_vm, EngineWitness.late_interp⟩
+
+/-! # PART 3: output and determinism -/
+
+/-- **Only `print` prints.**  Evaluating a tree in which every call is statically dispatched to
+a function other than the built-in `print` (`noPrint`, relative to the run-time table) adds no
+line of standard output to the event log: from every log, with every fuel, in debug mode or not,
+whether the evaluation succeeds or fails. -/
+theorem output_only_from_print (fuel : Nat) (dbg : Bool) (ρ : REnv) (e : Expr)
+    (h : noPrint ρ.funs e = true) (log : List Event) (hl : ∀ ev ∈ log, isPrint ev = false) :
+    ∀ ev ∈ (eval fuel dbg ρ e log).2, isPrint ev = false :=
+  eval_quiet fuel dbg ρ e h log hl
+
+/-- The same for an invocation through the engine. -/
+theorem invoke_output_only_from_print (e : Engine) (c : Callable) (venv : List (String × Val))
+    (ext : Externs) (h : noPrint (e.tableFor c) c.tree = true) :
+    ∀ ev ∈ (e.invoke c venv ext).2, isPrint ev = false := by
+  unfold Engine.invoke
+  split
+  · intro ev hev; cases hev
+  · have hq := runEval_quiet c.backend.dbg ⟨venv, e.tableFor c, ext⟩ c.tree h
+    split
+    · next v evs hr => rw [hr] at hq; exact hq
+    · next f evs hr => rw [hr] at hq; exact hq
+
+/-- non-vacuity: the compiled `!true` contains no call of `print` … -/
+example (p : Pos) (col : Int) (cp bp : Pos) :
+    noPrint builtinDecls (EngineWitness.notTrue p col cp bp) = true := by
+  have hr : resolveStatic builtinDecls "λ ! (bool)" (-1) = some EngineWitness.builtinNot := by rfl
+  have hne : ("λ ! (bool)" != "") = true := by decide
+  simp only [EngineWitness.notTrue, noPrint, noPrintL, hr, hne, EngineWitness.builtinNot]
+  decide
+
+/-- … and `print` does print: the compiled `print(true)` (it is what `Engine.new` compiles)
+returns `true` and writes the rendering of `true`, once — and `noPrint` is false for it. -/
+theorem print_prints :
+    ∃ p col cp bp, (Engine.new.compile [] [] "print(true)").2 =
+        .ok ⟨[], .bool, EngineWitness.printTrue p col cp bp, builtinDecls, .vm⟩ ∧
+      (∀ ext, runEval false ⟨[], builtinDecls, ext⟩ (EngineWitness.printTrue p col cp bp) =
+        (.ok (.bool true), [.print (Val.bool true).render])) ∧
+      noPrint builtinDecls (EngineWitness.printTrue p col cp bp) = false := by
+  obtain ⟨p, col, cp, bp, h⟩ := EngineWitness.compile_print
+  refine ⟨p, col, cp, bp, h, fun ext => EngineWitness.run_print ext p col cp bp, ?_⟩
+  have hr : resolveStatic builtinDecls "∀.λ print 1" 0 = some EngineWitness.builtinPrint := by rfl
+  have hp : refPrints (.builtin 48) = true := by decide
+  simp [EngineWitness.printTrue, noPrint, hr, EngineWitness.builtinPrint, hp]
+
+/-- **Only `print` prints — dynamic dispatch included.**  For ANY tree: if no value bound in the
+run-time environment holds (at any depth) a function referring to the built-in `print`, and no
+statically dispatched call is resolved to `print`, then the evaluation adds no line of standard
+output — and the value it returns again holds no such function. -/
+theorem output_only_from_print_dynamic (fuel : Nat) (dbg : Bool) (ρ : REnv) (e : Expr)
+    (hρ : ∀ p ∈ ρ.vars, quietVal p.2 = true) (h : noPrintD ρ.funs e = true)
+    (log : List Event) (hl : ∀ ev ∈ log, isPrint ev = false) :
+    (∀ ev ∈ (eval fuel dbg ρ e log).2, isPrint ev = false) ∧
+    ∀ v, (eval fuel dbg ρ e log).1 = .ok v → quietVal v = true :=
+  eval_quietD fuel dbg ρ e hρ h log hl
+
+/-- The same for an invocation through the engine. -/
+theorem invoke_output_only_from_print_dynamic (e : Engine) (c : Callable)
+    (venv : List (String × Val)) (ext : Externs) (hv : ∀ p ∈ venv, quietVal p.2 = true)
+    (h : noPrintD (e.tableFor c) c.tree = true) :
+    ∀ ev ∈ (e.invoke c venv ext).2, isPrint ev = false := by
+  unfold Engine.invoke
+  split
+  · intro ev hev; cases hev
+  · have hq := runEval_quietD c.backend.dbg ⟨venv, e.tableFor c, ext⟩ c.tree hv h
+    split
+    · next v evs hr => rw [hr] at hq; exact hq
+    · next f evs hr => rw [hr] at hq; exact hq
+
+/-- `output_only_from_print` is the special case without dynamic calls (no hypothesis on the
+environment is needed then). -/
+theorem noPrint_noPrintD (funs : List FunDecl) (e : Expr) (h : noPrint funs e = true) :
+    noPrintD funs e = true := noPrintD_of_noPrint funs e h
+
+/-- non-vacuity: an environment binding an object that holds a host function VALUE, and the
+dynamically dispatched call `h.f(true)` of it -/
+example :
+    let fTy : Ty := .fn "f" (.cons .bool .nil) .bool
+    let hTy : Ty := .obj (.cons "f" fTy .nil)
+    let hVal : Val := .obj hTy (.cons (.fn fTy (.host "f" (.constBool true)) false) .nil)
+    let tree : Expr := .call Pos.unknown 0 (.member Pos.unknown 0 (.ident Pos.unknown "h") "f"
+      Pos.unknown (some hTy) 0) (.cons (.bool Pos.unknown true) .nil) (some fTy) "" (-1)
+    (∀ p ∈ [("h", hVal)], quietVal p.2 = true) ∧ noPrintD builtinDecls tree = true ∧
+      noPrint builtinDecls tree = false := by
+  decide
+
+/-- the hypothesis on the environment cannot be dropped: a run-time environment may bind the
+built-in `print` itself as a function value (then a dynamic call of it prints, through `print`) -/
+theorem print_value_is_not_quiet (ty : Ty) (l : Bool) : quietVal (.fn ty (.builtin 48) l) = false := by
+  simp only [quietVal]
+  decide
+
+/-- **The outcome depends on the bindings of the compile-time names only.**  For a Callable an
+engine returned: two run-time environments that bind every name of the compile-time environment
+alike get the same verdict of the environment check and the same run — value or error, and all
+events — on any engine. -/
+theorem invoke_depends_on_bound_names {e e' : Engine} {times : List (String × Int)}
+    {tenv : List (String × Ty)} {src : String} {c : Callable}
+    (hc : (e.compile times tenv src).2 = .ok c) {venv₁ venv₂ : List (String × Val)}
+    (hv : ∀ x t, (x, t) ∈ tenv → lookupVal venv₁ x = lookupVal venv₂ x) (ext : Externs) :
+    e'.invoke c venv₁ ext = e'.invoke c venv₂ ext := by
+  have hcl := callable_closed hc
+  have ht : c.tenv = tenv := (compile_callable hc).1
+  exact invoke_congr hcl (fun x t hm => hv x t (ht ▸ hm))
+    (All.mono (fun _ _ => trivial) (fun _ _ _ => rfl) (fun h => h) _ hcl)
+
+/-- **Extra run-time bindings are irrelevant**: bindings for names the compile-time environment
+does not know, placed anywhere among the others, change neither the verdict nor the run. -/
+theorem extra_bindings_irrelevant {e e' : Engine} {times : List (String × Int)}
+    {tenv : List (String × Ty)} {src : String} {c : Callable}
+    (hc : (e.compile times tenv src).2 = .ok c) (venv pre post : List (String × Val))
+    (hpre : ∀ p ∈ pre, ∀ t, (p.1, t) ∉ tenv) (hpost : ∀ p ∈ post, ∀ t, (p.1, t) ∉ tenv)
+    (ext : Externs) :
+    e'.invoke c (pre ++ venv ++ post) ext = e'.invoke c venv ext := by
+  refine invoke_depends_on_bound_names hc (fun x t hm => ?_) ext
+  unfold lookupVal
+  have h1 : pre.find? (fun p => p.1 == x) = none := by
+    rw [List.find?_eq_none]
+    intro p hp hpx
+    simp only [beq_iff_eq] at hpx
+    exact hpre p hp t (hpx ▸ hm)
+  have h2 : post.find? (fun p => p.1 == x) = none := by
+    rw [List.find?_eq_none]
+    intro p hp hpx
+    simp only [beq_iff_eq] at hpx
+    exact hpost p hp t (hpx ▸ hm)
+  rw [List.find?_append, List.find?_append, h1, h2]
+  simp
+
+/-- The same for the one-shot pipeline `evalSrc` (`yae.Eval`): with the same operator and
+function tables and externs, environments that agree on the compile-time names give the same
+outcome. -/
+theorem evalSrc_deterministic (ops : List Operator) (times : List (String × Int)) (Γ : TEnv)
+    (ρ₁ ρ₂ : REnv) (src : String) (hf : ρ₁.funs = ρ₂.funs) (hx : ρ₁.ext = ρ₂.ext)
+    (hv : ∀ x t, (x, t) ∈ Γ.vars → ρ₁.lookupVar x = ρ₂.lookupVar x) :
+    evalSrc ops times Γ ρ₁ src = evalSrc ops times Γ ρ₂ src := by
+  unfold evalSrc
+  cases hc : compileSrc ops times Γ src with
+  | error err => rfl
+  | ok r =>
+    obtain ⟨T, e'⟩ := r
+    have hcl := compileSrc_closed hc
+    have henv : envCheck Γ.vars ρ₁.vars = envCheck Γ.vars ρ₂.vars := envCheck_congr hv
+    have hag : Agree ρ₁ ρ₂ e' :=
+      All.mono (fun x hx' => by obtain ⟨t, ht⟩ := hx'; exact hv x t ht)
+        (fun r i _ => by rw [hf]) (fun h => h) e' hcl
+    simp only [henv, runEval_congr hx hag]
+
 #print axioms render_map_perm
 #print axioms stringify_map_perm
 #print axioms find?_perm
@@ -113,5 +557,31 @@ example : sortBy (fun a b : String × Nat => decide (a.1 < b.1)) [("b", 1), ("a"
 #print axioms render_obj_perm
 #print axioms stringify_obj_declaration_order
 #print axioms sort_canonical
+#print axioms init_idempotent
+#print axioms init_effect
+#print axioms compile_state
+#print axioms invoke_state
+#print axioms callable_records
+#print axioms compile_invoke_eq_evalSrc
+#print axioms compile_error_eq_evalSrc
+#print axioms history_independent
+#print axioms history_independent_fresh
+#print axioms recompiled_same
+#print axioms registration_order_matters
+#print axioms registration_order_matters_mono
+#print axioms early_binding_ignores_engine
+#print axioms append_keeps_resolution
+#print axioms callable_stable_under_append
+#print axioms callable_stable_under_poly_registrations
+#print axioms late_binding_depends_on_compiler
+#print axioms output_only_from_print
+#print axioms invoke_output_only_from_print
+#print axioms print_prints
+#print axioms output_only_from_print_dynamic
+#print axioms invoke_output_only_from_print_dynamic
+#print axioms print_value_is_not_quiet
+#print axioms invoke_depends_on_bound_names
+#print axioms extra_bindings_irrelevant
+#print axioms evalSrc_deterministic
 
 end Yae.C13
